@@ -284,6 +284,9 @@ func decodeCopy(m *pgtype.Map, buf []byte, oids []uint32) ([][]Value, *pgErr) {
 	p := 19 + int(binary.BigEndian.Uint32(buf[15:]))
 	var rows [][]Value
 	for {
+		if p == len(buf) { // pgx omits the -1 trailer; PostgreSQL accepts that too
+			return rows, nil
+		}
 		if p+2 > len(buf) {
 			return nil, bad
 		}
@@ -331,7 +334,8 @@ func (c *conn) parse(m *pgproto3.Parse) {
 		perr = errf("25P02", "current transaction is aborted, commands ignored until end of transaction block")
 	}
 	if perr == nil {
-		p.params, p.fields, perr = (&run{db: c.view(), c: c}).plan(p.st)
+		r := &run{db: c.view(), c: c}
+		_, perr = r.safely(func() (_ *result, perr *pgErr) { p.params, p.fields, perr = r.plan(p.st); return })
 	}
 	c.s.mu.Unlock()
 	if perr != nil { // PostgreSQL, too, rejects the statement at Parse time
